@@ -17,6 +17,7 @@ allocations inside lz4_flex / snap; termination of parser loops in general.
 """
 import re
 from ..mir import AnchorLost
+from ..inline import is_new_function
 from ..util import df_of, fn_short, backward_slice, in_set, operand_path
 from ..callgraph import CallGraph
 from ..shapes import Accept, DV, impl_method, shapeflow, param_of_type, CT
@@ -109,25 +110,43 @@ def decode_set(facts):
     return cg, roots, pred, per
 
 
+def _base_fn(path):
+    while path.split("::")[-1].startswith("{closure"):
+        path = "::".join(path.split("::")[:-1])
+    return path
+
+
+def owner_body(facts, p, pred):
+    """the body a site in `p` is accounted to: `p` itself, or - when p belongs to a function that does not exist on the
+    reference tree (a helper extracted later) - the nearest function of the reference tree on the call path to it"""
+    seen = 0
+    q = p
+    while q is not None and is_new_function(_base_fn(q)) and seen < 8:
+        q = pred.get(q)
+        seen += 1
+    return facts.body(q) if q is not None and q in facts.bodies else facts.body(p)
+
+
 def census(facts, pred):
     """{(key, kind): [(body, bb, span)]}"""
     out = {}
     for p in pred:
         b = facts.body(p)
+        kb = owner_body(facts, p, pred)
         for bb in b.live_blocks:
             t = b.term(bb)
             if t[0] == "assert":
                 if t[3] in ("ResumedAfterReturn", "ResumedAfterPanic", "ResumedAfterDrop"):
                     continue
                 sp = b.term_span(bb)
-                out.setdefault((site_key(b, sp), "assert:" + t[3]), []).append((b, bb, sp))
+                out.setdefault((site_key(kb, sp), "assert:" + t[3]), []).append((b, bb, sp))
             elif t[0] == "call":
                 nm = t[1].get("res") or t[1].get("def") or ""
                 dn = t[1].get("def") or ""
                 if PANICKY.search(nm) or (dn != nm and PANICKY.search(dn)):
                     sp = b.term_span(bb)
                     short = "::".join(nm.split("::")[-2:])
-                    out.setdefault((site_key(b, sp), "call:" + short), []).append((b, bb, sp))
+                    out.setdefault((site_key(kb, sp), "call:" + short), []).append((b, bb, sp))
     return out
 
 
